@@ -87,6 +87,33 @@ func acceptsMinimal(c *Ctx, fn *ssa.Function, m minimalEncoding) (bool, int) {
 				}
 			}
 		}
+		// bytes read at an index that depends on the length (`data[len(data)-1]`): the index is
+		// known once the length is
+		if len(lenSym.T) == 1 && lenSym.C == 0 {
+			var ls Sym
+			for sy := range lenSym.T {
+				ls = sy
+			}
+			for sy, ref := range e.elemLoads {
+				if ref.Org != "d" {
+					continue
+				}
+				idx, known := ref.Idx.C, true
+				for t, coef := range ref.Idx.T {
+					if t == ls {
+						idx += coef * m.Len
+					} else {
+						known = false
+					}
+				}
+				if !known || len(ref.Idx.T) == 0 {
+					continue
+				}
+				if want, has := m.Bytes[idx]; has {
+					extra = append(extra, geq(linSym(sy), linConst(want)), leq(linSym(sy), linConst(want)))
+				}
+			}
+		}
 		if !infeasibleWith(st.cons, extra...) {
 			ok = true
 		}
